@@ -227,6 +227,75 @@ def qcvar_functional_case(dim_none):
     return fn
 
 
+def resimulate_case(deriv_kind, stepwise, with_listed, heston=False):
+    """The same hedger, derivative and underlier objects, re-simulated with the SAME shape (fresh series installed through the underlier's
+    own register_buffer, i.e. the route `stock.simulate()` takes): every result must be that of fresh objects holding the new series --
+    nothing cached from the first simulation (features, running maxima, listed prices, derived volatility) may survive."""
+
+    def fn(c):
+        from pfhedge.instruments import BrownianStock, EuropeanOption, HestonStock
+        from pfhedge.nn import ExpectedShortfall
+
+        N, T = 2, 3
+        kind = "heston" if heston else "brownian"
+        dt, sigma, K, K2, w = api.real(c, "dt", pos=True), api.real(c, "sigma", pos=True), api.real(c, "K", pos=True), api.real(c, "K2", pos=True), api.real(c, "w")
+
+        def build(ul):
+            d = cm.make_derivative(c, deriv_kind, ul, strike=K)
+            hedge = None
+            if with_listed:
+                listed = EuropeanOption(ul, strike=K2)
+                listed.list(lambda q: q.ul().spot * w + torch.nn.functional.relu(q.ul().spot - q.strike), cost=0.0)
+                hedge = [ul, listed]
+            return d, hedge
+
+        mk_ul = (lambda: HestonStock(cost=0.0, dt=dt)) if heston else (lambda: BrownianStock(sigma=sigma, cost=0.0, dt=dt))
+        with facades.real_torch():
+            ul = mk_ul()
+        cm.set_buffers(c, ul, "first", N, T, kind)
+        d, hedge = build(ul)
+        H = 2 if with_listed else 1
+        inputs = ["log_moneyness", "max_log_moneyness", "time_to_maturity", "volatility"] + (["prev_hedge"] if stepwise else [])
+        used = cm.make_hedger(c, list(inputs), H, criterion=ExpectedShortfall(0.5))
+        fresh = cm.make_hedger(c, list(inputs), H, criterion=ExpectedShortfall(0.5))
+        # round 1 on the first series: everything that could be cached is computed once
+        used.compute_pl(d, hedge)
+        used.compute_hedge(d, hedge)
+        _ = d.payoff(), d.max_log_moneyness(), ul.volatility
+        if with_listed:
+            _ = hedge[1].spot
+        # round 2: same objects, same shape, new series
+        cm.set_buffers(c, ul, "second", N, T, kind)
+        out_u, hedge_u = used.compute_pl(d, hedge), used.compute_hedge(d, hedge)
+        # fresh objects holding the very same (second) series
+        with facades.real_torch():
+            ul_f = mk_ul()
+        for nm, b in ul.named_buffers():
+            ul_f.register_buffer(nm, b)
+        d_f, hedge_f = build(ul_f)
+        out_f, hedge_fr = fresh.compute_pl(d_f, hedge_f), fresh.compute_hedge(d_f, hedge_f)
+        c.check("after a same-shape re-simulation: hedge equals that of fresh objects", api.tensor_eq(hedge_u, hedge_fr))
+        c.check("after a same-shape re-simulation: P&L equals that of fresh objects", api.tensor_eq(out_u, out_f))
+        c.check("after a same-shape re-simulation: payoff equals that of fresh objects", api.tensor_eq(d.payoff(), d_f.payoff()))
+        c.check("after a same-shape re-simulation: running maximum belongs to the new series",
+                api.tensor_eq(d.max_log_moneyness(), d_f.max_log_moneyness()))
+        if with_listed:
+            c.check("after a same-shape re-simulation: listed price belongs to the new series", api.tensor_eq(hedge[1].spot, hedge_f[1].spot))
+        d0, _h0 = _first(c, build, mk_ul, N, T, kind)
+        c.control("control:the running maximum after re-simulation equals the first series'",
+                  api.eq(api.elem(d.max_log_moneyness(), 0, 1), api.elem(d0.max_log_moneyness(), 0, 1)))
+
+    return fn
+
+
+def _first(c, build, mk_ul, N, T, kind):
+    """fresh objects holding the FIRST series again (same symbol names give the same symbols)"""
+    with facades.real_torch():
+        ul0 = mk_ul()
+    cm.set_buffers(c, ul0, "first", N, T, kind)
+    return build(ul0)
+
+
 def training_history_case(seq):
     """histories that include price / compute_loss / fit on one hedger, then hedging B: equal to a fresh hedger holding the
     same (possibly trained) parameters"""
@@ -349,6 +418,11 @@ def cases():
         for sw in (False, True):
             cs.append(Case("history/%s/step=%s/module-over-running-max" % ("+".join(sq), sw), history_case(sq, sw, module_max=True), encodes=enc,
                            bounds="A: N=2,T=3 European; B: N=1,T=4 lookback; ModuleOutput over max_log_moneyness/max_moneyness", timeout=60))
+    for dk, sw, wl in (("lookback", False, False), ("lookback", True, True), ("european", True, False)):
+        cs.append(Case("resimulate/%s/step=%s/listed=%s" % (dk, sw, wl), resimulate_case(dk, sw, wl), encodes=enc,
+                       bounds="N=2 T=3; two simulations of the same shape on the same objects vs fresh objects", timeout=60))
+    cs.append(Case("resimulate/lookback/step=False/listed=False/heston", resimulate_case("lookback", False, False, heston=True), encodes=enc,
+                   bounds="N=2 T=3 spot+variance buffers", timeout=60))
     for sq in (("priceA",), ("lossA", "hedgeB"), ("fitA",), ("priceA", "fitA"), ("loss2A", "plA")):
         cs.append(Case("history-training/%s" % "+".join(sq), training_history_case(sq), encodes=enc + ("Hedger.price", "Hedger.compute_loss", "Hedger.fit"),
                        bounds="A: N=2,T=3 (simulate stub); B: N=1,T=4 lookback; symbolic linear model, SGD with symbolic lr", timeout=120, max_paths=16))
